@@ -1,6 +1,6 @@
 """Core of the check driver: Lean build + axiom audit, harness build, differential runs,
 shrinking, known findings, verdicts, evidence."""
-import os, sys, json, time, subprocess, re, importlib, hashlib, shutil
+import os, sys, json, time, subprocess, re, importlib, hashlib, shutil, fnmatch
 
 VERIF = os.path.dirname(os.path.dirname(os.path.abspath(__file__)))
 REPO = os.environ.get("VERIF_REPO", "/repo")
@@ -59,7 +59,7 @@ class Ctx:
     def violation(self, key, what, replay_obj, nfi=False):
         """register a violation; known findings are matched by key"""
         for kf in self.known:
-            if kf.get("property") == self.prop and kf.get("status", "open") == "open" and kf["key"] == key:
+            if kf.get("property") == self.prop and kf.get("status", "open") == "open" and fnmatch.fnmatchcase(key, kf["key"]):
                 if (key, kf["what"]) not in self.known_hits:
                     self.known_hits.append((key, kf["what"]))
                 return
@@ -284,7 +284,7 @@ def split_cases(lines):
 
 
 def diff_component(ctx, component, gen_args, classify, label=None, shrink=True, max_report=6,
-                   mismatch_is_violation=True, sample_every=None):
+                   mismatch_is_violation=True, sample_every=None, line_oracle=None):
     """Generate on the implementation, replay on the model, compare.  `classify(case, idx, impl_out,
     model_out)` returns a finding key for a mismatch at op idx.  Returns number of mismatching cases."""
     label = label or component
@@ -314,8 +314,13 @@ def diff_component(ctx, component, gen_args, classify, label=None, shrink=True, 
                 # an independent oracle of the harness fired: reported on its own, the comparison goes on
                 ctx.count(f"{label}.oracle-hits")
                 key = classify(c, i, iout, mout)
-                if key not in bad:
+                if key is not None and key not in bad:
                     bad[key] = (c, i, iout, mout)
+            if line_oracle is not None:
+                # property evaluated on the implementation's answer alone (whatever the model says)
+                key = line_oracle(c, i, base)
+                if key is not None and key not in bad:
+                    bad[key] = (c, i, base + " ORACLE[" + key + "]", mout)
             if base != mout:
                 key = classify(c, i, base, mout)
                 if key not in bad:
@@ -329,7 +334,8 @@ def diff_component(ctx, component, gen_args, classify, label=None, shrink=True, 
     for key, (c, i, iout, mout) in list(bad.items())[:max_report]:
         ops = [op for (op, _) in c[: i + 1]]
         if shrink:
-            ops = shrink_case(component, ops, lambda c2, i2, io, mo: classify(c2, i2, io, mo) == key)
+            ops = shrink_case(component, ops, lambda c2, i2, io, mo: classify(c2, i2, io, mo) == key or
+                              (line_oracle is not None and line_oracle(c2, i2, io.split(" ORACLE[", 1)[0]) == key), every_line=line_oracle is not None)
         impl_lines, model_lines = replay_case(component, ops)
         if "ORACLE[" in iout:
             # implementation-vs-oracle failure: reported apart from model disagreements
@@ -349,7 +355,7 @@ def replay_case(component, ops):
     return impl, model
 
 
-def mismatches(component, ops):
+def mismatches(component, ops, every_line=False):
     """all points of a replay where something is reported: oracle hits (the comparison goes on) and
     the first line where implementation and model differ (the comparison stops)"""
     impl, model = replay_case(component, ops)
@@ -358,7 +364,7 @@ def mismatches(component, ops):
         io = impl[i] if i < len(impl) else "<none>"
         mo = model[i] if i < len(model) else "<none>"
         base = io.split(" ORACLE[", 1)[0]
-        if base != io:
+        if base != io or every_line:
             res.append((i, io, mo))
         if base != mo:
             res.append((i, base, mo))
@@ -373,7 +379,7 @@ def first_mismatch(component, ops):
     return r[0] if r else None
 
 
-def shrink_case(component, ops, same_class, budget=150):
+def shrink_case(component, ops, same_class, budget=150, every_line=False):
     """delta debugging on the op list (first line, the `new`, is kept)"""
     cur = list(ops)
     n = 2
@@ -382,7 +388,7 @@ def shrink_case(component, ops, same_class, budget=150):
         nonlocal tries
         tries += 1
         c = [(o, "") for o in cand]
-        for (i, io, mo) in mismatches(component, cand):
+        for (i, io, mo) in mismatches(component, cand, every_line):
             if same_class(c, i, io, mo):
                 return i
         return None
